@@ -1805,8 +1805,9 @@ class Scheduler:
 
         # Record the job as pending, since we're submitting it.
         # Note that if the CSE is disabled, this job might have the same `eval_hash` as a prior
-        # one. We don't care about overwriting, however, since they're all equivalent.
-        self._pending_jobs[(job.eval_hash, job.context_hash)] = job
+        # one that is still running. Keep the prior one registered: replacing it would let this
+        # job unregister it when it finishes first, and later equivalent calls would run again.
+        self._pending_jobs.setdefault((job.eval_hash, job.context_hash), job)
 
         # Submit job.
         if not job.task.script:
@@ -1994,7 +1995,9 @@ class Scheduler:
 
         # Once a job has been recorded to the cache, we don't need to keep around
         # the job, since if we see it again, we'll simply download the result.
-        self._pending_jobs.pop((job.eval_hash, job.context_hash), None)
+        # Only remove the job's own registration (an equivalent job may be registered instead).
+        if self._pending_jobs.get((job.eval_hash, job.context_hash)) is job:
+            self._pending_jobs.pop((job.eval_hash, job.context_hash), None)
 
     def _record_job_tags(self, job: Job) -> None:
         """
